@@ -77,6 +77,35 @@ NEUTRAL = ["H", "H\txx:i:1", "H\tyy:Z:a b\tab:f:1.5", "# c", "#", "H\txx:i:2", "
 
 
 RGFA_SN = ["chr1", "chr2", "s 1"]
+# record types of custom records (GFA2) of more than one character which begin with the code of a GFA1-only record
+# (L, C, P) - a reader which looked at the first character only would take them for GFA1 lines - and a few which
+# begin with H / S or with no predefined code
+CUSTOM_LCP = ["LN", "CL", "Pth", "Pos", "LC", "CP", "LCP", "P2", "LL", "L.C", "Lx", "C1", "PP", "Path", "Link"]
+CUSTOM_FIELDS = ["foo", "bar baz", "12", "*", "A+", "x,y", "a:b", "+", "1", "2"]
+
+
+def gen_custom_doc(rng):
+    """A GFA2 document in which custom records (which exist in GFA2 only) carry the weight; the record types come
+    from CUSTOM_LCP (+ X, Hx, S1) or from _docgen.CUSTOM_RT_WIDE.  60% `bare`: 1-4 lines, nothing but custom records,
+    H lines without VN and comments - no VN, no segment, no E/F/G/O/U line, so that the version is decided only when
+    the queue is processed at the end; 40%: a small GFA2 document (segments, mostly no VN) with a large share of
+    custom records, which wait in the queue when they come before the first version-specific line."""
+    pool = (CUSTOM_LCP + ["X", "Hx", "S1"]) if rng.random() < 0.6 else D.CUSTOM_RT_WIDE
+    bare = rng.random() < 0.6
+    ml = rng.choice([1, 2, 3, 4] if bare else [2, 3, 4, 5])
+    d = D.gen_doc(rng, version="gfa2", max_lines=ml, neutral=bare, no_vn=bare or rng.random() < 0.7, custom_rt=pool,
+                  custom_weight=8, same_id_groups=False, odd=0.15, taglike=0.2)
+    lines = list(d["lines"])
+    if bare:
+        lines = [l for l in lines if line_class(l) in "nc"]
+    if not any(line_class(l) == "c" for l in lines):
+        lines = lines[:ml - 1] if len(lines) >= ml and bare else lines
+        x = "\t".join([rng.choice(pool)] + [rng.choice(CUSTOM_FIELDS) for _ in range(rng.choice([0, 1, 2, 3]))] +
+                      D.gen_custom_tags(rng, rng.choice([0, 0, 1]), odd=0.1, types="iZAf"))
+        lines.insert(rng.randint(0, len(lines)), x)
+    while len(lines) > 5 and any(line_class(l) == "n" for l in lines):      # keep the number of orders small
+        lines.remove([l for l in lines if line_class(l) == "n"][-1])
+    return lines
 
 
 def gen_rgfa_doc(rng, syntax):
@@ -165,10 +194,16 @@ def add_repeats(rng, lines, version, maxn):
 
 
 def gen_case(rng, tier, i):
-    kind = rng.choice(["pure1", "pure2", "neutral", "mixed", "mixed", "mixed", "pure1", "pure2", "oddvn", "rgfa"])
+    kind = rng.choice(["pure1", "pure2", "neutral", "mixed", "mixed", "mixed", "pure1", "pure2", "oddvn", "rgfa", "custom"])
     big = tier != "quick"
     dialect = None
     repeat = kind in ("pure1", "pure2", "mixed") and rng.random() < 0.3
+    if kind == "custom":
+        lines = gen_custom_doc(rng)
+        if rng.random() < 0.2:
+            lines = add_repeats(rng, lines, "gfa2", 5)
+        return {"kind": kind, "lines": lines, "label": "gfa2", "vparam": rng.choice([None, None, "gfa2"]),
+                "vlevel": rng.choice([1, 1, 2, 3, 0]), "sample": rng.randrange(10 ** 6), "dialect": None}
     if kind == "rgfa":
         label = rng.choice(["gfa1", "gfa2"])
         lines = gen_rgfa_doc(rng, label)
@@ -277,6 +312,10 @@ def required(case):
     content_or_param = set(R)
     if rgfa:
         R.add("gfa1")
+    if "c" in cl and "gfa1" not in R:
+        # custom records exist in GFA2 only: with nothing that speaks for GFA1 (content, parameter, dialect) the
+        # document is valid in GFA2 and in no other version - also when nothing else in it tells the version
+        R.add("gfa2")
     oddvn = any(c == "?" and l.startswith("H") for l, c in zip(case["lines"], cl))
     unspecified = any(c == "?" and not l.startswith("H") for l, c in zip(case["lines"], cl)) or ("c" in cl and "gfa1" in R)
     if rgfa and len(R) == 1 and ("gfa1" not in content_or_param or not rgfa_valid(case["lines"])):
